@@ -277,7 +277,7 @@ impl Check for C11 {
                 (gen::hazard_program(rng, o), gen::pick_stack(rng), Some(0xFF))
             }
             4..=6 => {
-                let irq = IrqOpts { enable_key: true, di_windows: rng.bool(), nested_ei: rng.chance(1, 4), isr_work: rng.bool(), enable_by_store: rng.bool(), mask_windows: false, mid_stop: false };
+                let irq = IrqOpts { enable_key: true, di_windows: rng.bool(), nested_ei: rng.chance(1, 4), isr_work: rng.bool(), enable_by_store: rng.bool(), mask_windows: false, mid_stop: false, isr_ei_first: false };
                 let o = HazardOpts { len: 6 + rng.usize(30), wild: false, run_into_io: false, with_ei: true, irq: Some(irq) };
                 (gen::hazard_program(rng, o), *rng.pick(&[0u8, 32]), Some(0xFF))
             }
